@@ -243,8 +243,13 @@ def twotype_cases(draw, plain2=False):
     ln, lp = draw(st.integers(1, 4)), draw(st.integers(1, 4))
     if plain2 and ln == lp:
         lp = ln + 1
-    return {"nested": nested, "plain": plain, "body": body, "steps": draw(st.integers(2, 5)),
+    case = {"nested": nested, "plain": plain, "body": body, "steps": draw(st.integers(2, 5)),
             "len_nested": ln, "len_plain": lp, "plain2": plain2}
+    if plain2 and draw(st.integers(0, 9)) < 4:
+        # the first component is a genuinely rectangular two-dimensional array
+        case["len_nested"] = 6
+        case["shape2d"] = draw(st.sampled_from([[2, 3], [3, 2]]))
+    return case
 
 
 def twotype_build(case):
@@ -312,7 +317,8 @@ def twotype_generate(case, dag):
         user_type_map={
             nested: (f.StructureType("nested_t", (
                 ("v", f.PointerType(f.ArrayType((case["len_nested"],), f.BuiltinType("real*8")))),))
-                if not case.get("plain2") else f.ArrayType((case["len_nested"],), f.BuiltinType("real*8"))),
+                if not case.get("plain2") else f.ArrayType(tuple(case.get("shape2d") or (case["len_nested"],)),
+                                                           f.BuiltinType("real*8"))),
             plain: f.ArrayType((case["len_plain"],), f.BuiltinType("real*8")),
         })
     text, _ = K.quiet(cg, dag)
